@@ -685,14 +685,18 @@ Qed.
 Definition ca_msg : cl_msg :=
   {| cm_epoch := 7; cm_flags := [78]; cm_locals := [[104; 58; 49]]; cm_content := 3; cm_route := [104; 58; 49] |}.
 
+Lemma cstep_single : forall h g g' t t', ctstep h g t = Some (g', t') -> cstep h (g, [t]) (g', [t']).
+Proof. intros h g g' t t' H. apply (cstep_thread h g g' [] t t' []). exact H. Qed.
+
 Lemma cluster_atomic_example :
   exists y, csteps nl_host (cg_init ps_init, cstart_pool [ca_msg]) y /\
             cg_locked (fst y) = true /\ cg_epoch (fst y) = 0 /\ cg_meta (fst y) = Some (3, [104; 58; 49]) /\
             cg_meta_epoch (fst y) = 7.
 Proof.
+  unfold cstart_pool. cbn [map].
   eexists. split.
   - eapply csteps_step; [eapply csteps_step; [apply csteps_refl|]|].
-    + apply (cstep_thread nl_host _ _ [] _ _ []). vm_compute. reflexivity.
-    + apply (cstep_thread nl_host _ _ [] _ _ []). vm_compute. reflexivity.
+    + apply cstep_single. vm_compute. reflexivity.
+    + apply cstep_single. vm_compute. reflexivity.
   - vm_compute. repeat split.
 Qed.
